@@ -9,9 +9,9 @@ THEOREM_FILE = "properties/C14.v"
 CASE_DEPS = ["theories/Verify.v"]
 RULE = ("stream repro (monitored runs; a test, not a proof): seeded random hierarchies whose children are listed in a random "
         "(mostly non-topological) order with multi-predecessor children; each is compiled, exported, evaluated and aggregated by "
-        "the real code in SIX separate processes: PYTHONHASHSEED = 0, 1, 2, 3, 4 cold, and PYTHONHASHSEED = 0 after 25 unrelated "
-        "compilations; in every process every call is made twice and every argument is snapshotted (pickle / model_dump_json) "
-        "before and after; spec = all six exported documents byte-identical, repeated calls equal, no argument modified; "
+        "the real code in SEVEN separate processes: PYTHONHASHSEED = 0, 1, 2, 3, 4 cold, PYTHONHASHSEED = 0 after 25 unrelated "
+        "compilations, and after the routine's own float twin (integer literals written as 3.0) went through the same calls; in every process every call is made twice and every argument is snapshotted (pickle / model_dump_json) "
+        "before and after; spec = all seven exported documents byte-identical, repeated calls equal, no argument modified; "
         "tie (inside Coq) = the exported child order of every node is a topological listing of exactly the source's children; "
         "non-trivial = some node has a child with two predecessors or children listed out of order; distinct by canonical JSON hash")
 TRUSTED_BASE = ["the comparison of exported documents across processes is done by the harness in Python (sha256 of model_dump_json)"]
@@ -36,9 +36,12 @@ def gen_cases(rng, n):
 
 def run(cases):
     runs = []
+    cases = [dict(c, native=True) for c in cases]     # integer literals are handed over as native ints, not as text
     for hs in SEEDS:
         runs.append(lib.run_impl("repro", cases, per_case_timeout=120, hashseed=hs))
     runs.append(lib.run_impl("repro", [dict(c, warm=25) for c in cases], per_case_timeout=240, hashseed="0"))
+    # ... and after the routine's own float twin (every integer literal written as 3.0) has gone through the same calls
+    runs.append(lib.run_impl("repro", [dict(c, twin_first=True) for c in cases], per_case_timeout=240, hashseed="0"))
     merged = []
     for k in range(len(cases)):
         rs = [r[k] for r in runs]
@@ -96,7 +99,7 @@ def nontrivial(case):
 
 
 def distribution(cases):
-    return {"multi_predecessor": sum(1 for c in cases if nontrivial(c)), "processes_per_case": len(SEEDS) + 1}
+    return {"multi_predecessor": sum(1 for c in cases if nontrivial(c)), "processes_per_case": len(SEEDS) + 2}
 
 
 def mk_stream(cases):
